@@ -64,6 +64,25 @@ type C11Case struct {
 	// liar answers from (default: the valid child of the honest tip when the
 	// liar claims the honest chain, else the honest chain).
 	AltTip int `json:"alt_tip,omitempty"`
+	// Slow, if set, adds a Byzantine peer in the honest peers' subnet that
+	// saturates the subnet's in-flight budget with half-open RPC streams.
+	Slow *SlowSpec `json:"slow,omitempty"`
+}
+
+// SlowSpec: the victim runs with small RPC limits (per-peer L, per-subnet S,
+// /24 subnets - all peers of a case share one); the honest peers first hold
+// the honest chain minus Late blocks. Once the victim has caught up with them
+// the attacker opens S streams on which it sends the RPC id only (the handlers
+// wait for the request), keeps them for HoldMS while the honest peers keep
+// announcing (their RPCs are dropped: subnet over budget - documented
+// behaviour), then leaves. After that the honest peers receive the last Late
+// blocks. Nothing of this entitles the victim to stop following the honest
+// chain.
+type SlowSpec struct {
+	L      int `json:"l"`       // WithMaxInflightRPCs, 2..6
+	S      int `json:"s"`       // WithMaxInflightRPCsPerSubnet, 2..6
+	HoldMS int `json:"hold_ms"` // 1500..3500
+	Late   int `json:"late"`    // 1..3
 }
 
 // headerSafeCorruptions keep the block's header valid (the lie is in the body
@@ -200,6 +219,9 @@ func genC11(t *rapid.T) C11Case {
 		}
 		c.Byz = append(c.Byz, b)
 	}
+	if c.Bootstrap == 0 && rapid.IntRange(0, 9).Draw(t, "slowroll") == 0 {
+		c.Slow = &SlowSpec{L: rapid.IntRange(2, 6).Draw(t, "slowL"), S: rapid.IntRange(2, 6).Draw(t, "slowS"), HoldMS: rapid.IntRange(1500, 3500).Draw(t, "slowhold"), Late: rapid.IntRange(1, 3).Draw(t, "slowlate")}
+	}
 	c.Tree = tc
 	return c
 }
@@ -231,6 +253,7 @@ func nodeAt(tr *kit.Tree, idx int) *kit.TNode {
 // c11Info reports what a case reached (for the enumerated stage).
 type c11Info struct {
 	Delivered []bool // per Byzantine peer: its lie went out and differed from the honest payload
+	SlowHeld  bool   // the half-open streams were opened and held
 	Quiescent bool
 }
 
@@ -269,8 +292,14 @@ func runC11x(c C11Case, cs *kit.CaseStats, info *c11Info) error {
 		}
 	}()
 	quietOpts := []syncer.Option{syncer.WithSyncInterval(netSyncInterval), syncer.WithPeerDiscoveryInterval(time.Hour), syncer.WithMaxInboundPeers(16), syncer.WithMaxOutboundPeers(16)}
+	honestStart := H
+	if c.Slow != nil {
+		for k := max(1, c.Slow.Late); k > 0 && honestStart.Parent != nil && honestStart.Parent.Idx >= 0; k-- {
+			honestStart = honestStart.Parent
+		}
+	}
 	for i := 0; i < max(1, c.NHonest); i++ {
-		kn, err := p2px.NewChainNode(tr, H, 0)
+		kn, err := p2px.NewChainNode(tr, honestStart, 0)
 		if err != nil {
 			return fmt.Errorf("honest peer: %v", err)
 		}
@@ -385,6 +414,9 @@ func runC11x(c C11Case, cs *kit.CaseStats, info *c11Info) error {
 	var firstPanic atomic.Value
 	vopts := append([]syncer.Option{syncer.WithLogger(panicLogger(&panics, &firstPanic))}, quietOpts...)
 	vopts = append(vopts, syncer.WithSendBlockTimeout(5*time.Second), syncer.WithSendBlocksTimeout(5*time.Second), syncer.WithSendTransactionsTimeout(5*time.Second))
+	if c.Slow != nil {
+		vopts = append(vopts, syncer.WithMaxInflightRPCs(max(1, c.Slow.L)), syncer.WithMaxInflightRPCsPerSubnet(max(1, c.Slow.S)), syncer.WithInflightRPCSubnetPrefixes(24, 48))
+	}
 	victim, err = p2px.StartSyncer(vnode, p2px.NodeConfig{Name: "victim", IP: p2px.ListenIP(0), UID: p2px.DetUniqueID("c11-victim"), Opts: vopts})
 	if err != nil {
 		vnode.Close()
@@ -431,6 +463,63 @@ func runC11x(c C11Case, cs *kit.CaseStats, info *c11Info) error {
 			time.Sleep(d)
 		}
 		p.fn()
+	}
+
+	// ---- the half-open-stream attack
+	var slowDone, slowHeld atomic.Bool
+	if c.Slow == nil {
+		slowDone.Store(true)
+	} else {
+		go func() {
+			defer slowDone.Store(true)
+			// wait until the victim has what the honest peers have (bounded; the
+			// attack goes ahead anyway)
+			for deadline := time.Now().Add(8 * time.Second); time.Now().Before(deadline) && victim.Node.CM.Tip() != honestStart.Index(); {
+				time.Sleep(50 * time.Millisecond)
+			}
+			time.Sleep(300 * time.Millisecond)
+			// S half-open streams, at most L per connection (more than L streams
+			// on one connection is the shape of known finding F-C18-2: the
+			// per-peer back-pressure then blocks that connection altogether)
+			need, opened := max(1, c.Slow.S), 0
+			var attackers []*p2px.GWPeer
+			for k := 0; opened < need && k < 8; k++ {
+				ip := p2px.ListenIP(40 + k)
+				at := &p2px.GWPeer{Genesis: genesisID, UniqueID: p2px.DetUniqueID("c11-slow", k), IP: ip, NetAddress: fmt.Sprintf("%s:%d", ip, 4040+k)}
+				attackers = append(attackers, at)
+				conn, err := at.Dial(context.Background(), victim.Addr(), 10*time.Second)
+				if err != nil {
+					continue
+				}
+				go conn.Serve(serveQuiet)
+				for j := 0; j < max(1, c.Slow.L) && opened < need; j++ {
+					if st, err := conn.T.DialStream(); err == nil {
+						st.SetDeadline(time.Now().Add(time.Minute))
+						if st.WriteID(&gateway.RPCSendHeaders{}) == nil {
+							opened++
+						}
+					}
+				}
+			}
+			if opened == need {
+				slowHeld.Store(true)
+			}
+			time.Sleep(time.Duration(c.Slow.HoldMS) * time.Millisecond)
+			for _, at := range attackers {
+				at.Close()
+			}
+			time.Sleep(300 * time.Millisecond)
+			// the honest chain grows by its last blocks
+			var late []types.Block
+			for _, n := range H.PathFromGenesis() {
+				if n.Height > honestStart.Height {
+					late = append(late, n.Block)
+				}
+			}
+			for _, h := range honest {
+				h.Node.Submit(late)
+			}
+		}()
 	}
 
 	// ---- active lies (relays), repeated a few times
@@ -585,6 +674,9 @@ func runC11x(c C11Case, cs *kit.CaseStats, info *c11Info) error {
 				}
 			}
 		}
+		if !slowDone.Load() {
+			changed = true // the attack (and the honest chain's last blocks) are still to come
+		}
 		if changed || !live || !honestSynced {
 			lastChange = time.Now()
 			why = fmt.Sprintf("changed=%v live=%v honestSynced=%v", changed, live, honestSynced)
@@ -596,7 +688,7 @@ func runC11x(c C11Case, cs *kit.CaseStats, info *c11Info) error {
 			tn := tipNode()
 			lighter := tn != nil && tn.Ledger != nil && H.Ledger.State.SufficientlyHeavierThan(tn.Ledger.State)
 			key := fmt.Sprintf("%v/%d", victim.Node.CM.Tip(), victim.CM.SubmittedCount())
-			if stall.observeW(live && lighter, key, stallWindowByz()) && stallOracle() {
+			if stall.observeW(live && lighter && slowDone.Load(), key, stallWindowByz()) && stallOracle() {
 				var ps []string
 				for _, p := range victim.S.Peers() {
 					ps = append(ps, fmt.Sprintf("%s synced=%v err=%v", p, p.Synced(), p.Err()))
@@ -618,7 +710,7 @@ func runC11x(c C11Case, cs *kit.CaseStats, info *c11Info) error {
 		// for a while, the honest chain is not sufficiently heavier than the
 		// victim's tip and every active liar had its shots, there is nothing left
 		// to wait for
-		if !honestSynced && live && time.Since(lastMove) >= 4*time.Second {
+		if !honestSynced && live && slowDone.Load() && time.Since(lastMove) >= 4*time.Second {
 			tn := tipNode()
 			relaysDone := true
 			for i, b := range byz {
@@ -708,6 +800,15 @@ func runC11x(c C11Case, cs *kit.CaseStats, info *c11Info) error {
 		}
 	}
 	// what was exercised
+	if c.Slow != nil {
+		if slowHeld.Load() {
+			cs.NonTrivial()
+			cs.Class("lie-delivered:slowloris/half-open-streams")
+		}
+		if info != nil {
+			info.SlowHeld = slowHeld.Load()
+		}
+	}
 	for i, b := range byz {
 		rpc := b.Corr.RPC
 		key := rpc + "/" + b.Corr.Kind
